@@ -257,6 +257,10 @@ func c12Gen(c *core.Ctx) {
 			}
 		})
 	}
+	// U+FFFD is an ordinary character when it is validly encoded
+	for _, p := range []string{"*", "*b", "?", "*?", "\ufffd", "\\\ufffd", "[\ufffd]", "a\ufffd*", "*ab", "[!a]*", "*\\\ufffdb"} {
+		core.Do(c, c12Case{Pats: []string{p}, Subjs: []string{"a\ufffd", "a\ufffdb", "\ufffd", "\ufffdab", "x\ufffdab", "日\ufffd", "\ufffd\ufffd", ""}, Kind: "replacement-character"}, c12Exec)
+	}
 	// random single and multi-pattern cases
 	n := c.Pick(20000, 400000)
 	for i := 0; i < n; i++ {
